@@ -113,8 +113,16 @@ def make_config(rng, fn=None, big=False, coefs=None, maxvars=6, one_shot_ok=Fals
             terms = {tuple(gen.sort_labels(k)): v for k, v in terms.items()}
     mapped = None
     constrained = False
+    zero_entry = False
     if tn == "dict":
         m = dict(terms)
+        if labs and rng.random() < 0.25:
+            # a plain dict filled from a weight table: some entries are explicit zeros (the model is the same function)
+            for _ in range(rng.randint(1, 2)):
+                k0 = tuple(gen.sort_labels(rng.sample(labs, rng.randint(1, min(2, len(labs))))))
+                if k0 not in m:
+                    m[k0] = rng.choice([0, 0.0])
+                    zero_entry = True
     else:
         m = gen.model_of(getattr(L, tn), terms)
         if tn in ("PCBO", "PCSO") and labs and rng.random() < 0.4:
@@ -197,7 +205,7 @@ def make_config(rng, fn=None, big=False, coefs=None, maxvars=6, one_shot_ok=Fals
         # labels 0..n-1: the state spelled as a sequence indexed by label (the repository's own tests spell it so)
         kw["initial_state"] = rng.choice([list, tuple])(kw["initial_state"][i] for i in range(len(full)))
         seq_state = True
-    return {"seq_state": seq_state, "fn": fn, "type": tn, "model": m, "terms": dict(m), "kw": kw, "poly": p, "kind": kind,
+    return {"seq_state": seq_state, "zero_entry": zero_entry, "fn": fn, "type": tn, "model": m, "terms": dict(m), "kw": kw, "poly": p, "kind": kind,
             "true_vars": tv, "full_keys": full, "own_matrix": own, "matrix": mat, "schedule_kind": sch, "user_mapping": mapped, "coef_kind": coef_kind, "numpy_spelled": numpy_spelled,
             "constrained": constrained}
 
